@@ -23,6 +23,12 @@ pub enum Wrapper {
     Function,
     Brace,
     Subshell,
+    /// `if true; then INNER; fi`
+    IfTrue,
+    /// `for _w in 1; do INNER; done`
+    ForOnce,
+    /// `case x in x) INNER ;; esac`
+    CaseArm,
 }
 
 #[derive(Clone, Debug, Serialize, Deserialize, PartialEq)]
@@ -75,6 +81,8 @@ pub enum Wrap {
     ProcSubstIn,
     /// `PIPELINE > >(simcat 64)` followed by a barrier that waits for the reader
     ProcSubstOut,
+    /// `PIPELINE > bgout.txt & wait; simcat 64 < bgout.txt`
+    Background,
 }
 
 #[derive(Clone, Debug, Serialize, Deserialize)]
@@ -192,6 +200,10 @@ pub fn render(case: &Case) -> String {
             }
             Wrapper::Brace => format!("{{ {inner}; }}"),
             Wrapper::Subshell => format!("( {inner} )"),
+            Wrapper::IfTrue => format!("if true; then {inner}; fi"),
+            Wrapper::ForOnce => format!("for _w{i} in 1; do {inner}; done"),
+            // (the parenthesised pattern form, so that the text can sit inside $( ) and <( ))
+            Wrapper::CaseArm => format!("case x in (x) {inner} ;; esac"),
         };
         parts.push(text);
     }
@@ -236,6 +248,9 @@ pub fn render(case: &Case) -> String {
         }
         Wrap::ProcSubstIn => {
             s.push_str(&format!("simcat 64 < <({pipeline})\nprobe ps\n"));
+        }
+        Wrap::Background => {
+            s.push_str(&format!("{pipeline} > bgout.txt &\nwait\nsimcat 64 < bgout.txt\nprobe ps\n"));
         }
         Wrap::ProcSubstOut => {
             // the reader is not waited for by the shell: `simres` samples at quiescence
@@ -439,11 +454,14 @@ fn gen_strategy(rng: &mut Rng) -> Strategy {
 }
 
 fn gen_wrapper(rng: &mut Rng) -> Wrapper {
-    match rng.below(4) {
-        0 => Wrapper::None,
-        1 => Wrapper::Function,
-        2 => Wrapper::Brace,
-        _ => Wrapper::Subshell,
+    match rng.below(9) {
+        0..=1 => Wrapper::None,
+        2..=3 => Wrapper::Function,
+        4 => Wrapper::Brace,
+        5 => Wrapper::Subshell,
+        6 => Wrapper::IfTrue,
+        7 => Wrapper::ForOnce,
+        _ => Wrapper::CaseArm,
     }
 }
 
@@ -587,6 +605,7 @@ impl C11 {
                 2 => Wrap::NestedCmdSubst,
                 3 => Wrap::ProcSubstIn,
                 4 => Wrap::ProcSubstOut,
+                5 => Wrap::Background,
                 _ => Wrap::None,
             },
         };
@@ -613,6 +632,14 @@ impl C11 {
         if class == "real-size" {
             cfg.short_read_pm = 0;
         }
+        // (side finding, not C11: brush cannot parse a `case` inside <( ) / >( ))
+        if matches!(wrap, Wrap::ProcSubstIn | Wrap::ProcSubstOut) {
+            for st in &mut stages {
+                if st.wrapper == Wrapper::CaseArm {
+                    st.wrapper = Wrapper::Brace;
+                }
+            }
+        }
         let lastpipe = rng.below(5) == 0;
         let via_entry = rng.below(5) == 0;
         Case { class, stages, wrap, pipefail: rng.below(3) == 0, lastpipe, via_entry, front_end, cfg }
@@ -632,7 +659,7 @@ pub fn judge(case: &Case) -> Verdict {
     let script = render(case);
     let m = model(case);
     let mut spec = RunSpec::new(script.clone(), case.front_end.clone(), case.cfg.clone());
-    spec.needs_dir = false;
+    spec.needs_dir = case.wrap == Wrap::Background;
     spec.via_entry = case.via_entry;
     let r = runner::run(&spec);
     let mut v = Verdict::default();
